@@ -90,7 +90,7 @@ MCShapes == CatShapes \cup Gen(Ops, MaxLen) \cup Gen(Reduced, MaxLenR) \cup Gen(
 \* the model's outcomes of a shape: what Run does and whether the template recovered, over all k, sticky or not
 Outcomes(shape, cf) ==
   {[ret |-> f.ret, rec |-> IF f.nrec > 0 THEN 1 ELSE 0, fail |-> f.failed] :
-     f \in {Final(S0(shape, k, st, cf)) : k \in 1..(NWrites(shape) + 1), st \in BOOLEAN}}
+     f \in {Final(S0(shape, k, st, cf)) : k \in 1..(NWrites(shape) + 1), st \in Stickiness(shape)}}
 CatSeq == SetToSeq(Catalogue)
 CxSeq == SetToSeq(Contexts \X Values)
 Cases == [i \in 1..Len(CatSeq) |->
